@@ -136,6 +136,9 @@ def evolve(rnd, g, ir, compatible_only):
             if not cands:
                 continue
             h, k, n = rnd.choice(cands)
+            inside = [x for x in cands if x[1] in ("items", "values")]
+            if inside and rnd.random() < 0.7:
+                h, k, n = rnd.choice(inside)        # the union is the item / value type of a collection
             b = copy.deepcopy(rnd.choice(n["br"]))
             if b["k"] == "prim" and b["name"] in PROMOTE and "lt" not in b and rnd.random() < 0.5:
                 b = {"k": "prim", "name": rnd.choice(PROMOTE[b["name"]])}
@@ -394,13 +397,14 @@ def resolve_case(fa, cid, wraw, rraw, datum, equal):
         fa.writer(ff, wraw, [datum])
         recs = list(fa.reader(io.BytesIO(ff.getvalue()), reader_schema=rraw))
         c["file"] = {"ok": True, "recs": [proj.pv(r) for r in recs]}
-        try:
-            brecs = [r for blk in fa.block_reader(io.BytesIO(ff.getvalue()), reader_schema=rraw) for r in blk]
-            c["blocks"] = {"ok": True, "recs": [proj.pv(r) for r in brecs]}
-        except Exception as e:  # noqa: BLE001
-            c["blocks"] = {"ok": False, "exc": proj.pexc(e)["exc"]}
+
     except Exception as e:  # noqa: BLE001
         c["file"] = {"ok": False, "exc": proj.pexc(e)["exc"], "msg": proj.cps(str(e)[:150])}
+    try:
+        brecs = [r for blk in fa.block_reader(io.BytesIO(ff.getvalue()), reader_schema=rraw) for r in blk]
+        c["blocks"] = {"ok": True, "recs": [proj.pv(r) for r in brecs]}
+    except Exception as e:  # noqa: BLE001
+        c["blocks"] = {"ok": False, "exc": proj.pexc(e)["exc"]}
     return c
 
 
